@@ -1486,10 +1486,18 @@ def implies_windowed(parsed_exprs: dict) -> bool:
     Return true if expression implies a windowed calculation is needed.
     """
     assert isinstance(parsed_exprs, dict)
-    for opk in parsed_exprs.values():  # look for aggregation functions
-        if isinstance(opk, data_algebra.expr_rep.Expression):
-            if opk.op in data_algebra.expr_rep.fn_names_that_imply_windowed_situation:
+
+    def uses_windowed_fn(e) -> bool:
+        """look for aggregation functions anywhere in the expression tree"""
+        if isinstance(e, data_algebra.expr_rep.Expression):
+            if e.op in data_algebra.expr_rep.fn_names_that_imply_windowed_situation:
                 return True
+            return any(uses_windowed_fn(ai) for ai in e.args)
+        return False
+
+    for opk in parsed_exprs.values():
+        if uses_windowed_fn(opk):
+            return True
     return False
 
 
